@@ -220,6 +220,31 @@ def check_cases(ctx, cases):
         got = check_outcome(o)
         if got != expected_check:
             ctx.fail(case, f"check() gives {got}, expected {expected_check} (raw manifest {'not needed' if expected_check != 'ok' else 'absent/needed'})", "check-wrong:" + expected_check)
+        # other ways of building the same object give the same id: from its dictionary without the id,
+        # and (directories) through the repair constructor, with the entries as they are and with a
+        # repeated name plus the raw manifest to preserve
+        try:
+            d_noid = {k: v for k, v in o.to_dict().items() if k != "id"}
+            o_fd = type(o).from_dict(d_noid)
+            if o_fd.id != want:
+                ctx.fail(case, "from_dict of the dictionary without its id gives another id than the SHA-1 of the manifest", "id-not-hash-of-manifest:from_dict")
+        except Exception as e:
+            ctx.fail(case, f"from_dict of the dictionary without its id raises {type(e).__name__}", "from_dict-without-id-raises")
+        if kind == "directory":
+            from swh.model import model as _m
+
+            ctx.count("alt-constructor=directory")
+            try:
+                _, o_alt = _m.Directory.from_possibly_duplicated_entries(entries=o.entries, raw_manifest=raw)
+                if o_alt.id != want or o_alt.compute_hash() != o_alt.id:
+                    ctx.fail(case, "Directory.from_possibly_duplicated_entries (no repeated name) gives an id that is not the SHA-1 of the manifest", "id-not-hash-of-manifest:repair-constructor")
+                if o.entries and raw is not None:
+                    dup = o.entries + (attr.evolve(o.entries[0], target=bytes(20)),)
+                    flag, o_dup = _m.Directory.from_possibly_duplicated_entries(entries=dup, raw_manifest=raw)
+                    if o_dup.raw_manifest != raw or o_dup.id != hashlib.sha1(raw).digest() or o_dup.compute_hash() != o_dup.id or check_outcome(o_dup) != "ok":
+                        ctx.fail(case, "Directory.from_possibly_duplicated_entries with a raw manifest to preserve: the id is not the SHA-1 of that manifest / check() rejects it", "id-not-hash-of-manifest:repair-constructor-raw")
+            except Exception as e:
+                ctx.fail(case, f"Directory.from_possibly_duplicated_entries raises {type(e).__name__}: {str(e)[:100]}", "repair-constructor-raises")
         for w in wrong_ids(ctx, o.id, case["flipseed"]):
             ctx.count("wrong-ids")
             try:
